@@ -222,4 +222,31 @@ example :
     ((dispatch beh s 0 .packet).2.map (·.entry)) = [.h 1, .own] := by
   decide
 
+/-! ### the defect that was repaired (finding F15a), for the record -/
+
+/-- the pinned code's iteration: `for handler in queue` over the LIVE list, i.e. by index into the
+    chain as it is at each step -/
+def walkLive (beh : Beh) (p : Nat) (k : Kind) : Nat → Nat → DState → List Entry
+  | 0, _, _ => []
+  | fuel + 1, i, s =>
+    match (s.reg.chain p k)[i]? with
+    | none => []
+    | some e =>
+      let r := invoke beh p k e s
+      if k.interruptible && r.2.1 == Ret.interrupt then [e] else e :: walkLive beh p k fuel (i + 1) r.1
+
+/-- live iteration is NOT what the property asks for: with chain `[h1, h2, own]`, `h1` unregistering
+    itself makes `h2` be skipped, and `h1` registering another handler makes `h1` run twice — the two
+    replays of F15a; the snapshot walk of the model (= the repaired code) does neither
+    (`C15_order`, and the example after `C15_unregister_reentrant`). -/
+theorem C15_live_iteration_skips_and_repeats :
+    let s := (run (fun _ _ => ⟨[], .cont⟩) DState.init [.create 0, .register 0 .timer 2, .register 0 .timer 1]).1
+    walkLive (fun c n => match c, n with
+      | .handler 1, 0 => ⟨[.unreg .timer 1], .cont⟩
+      | _, _ => ⟨[], .cont⟩) 0 .timer 10 0 s = [.h 1, .own] ∧
+    walkLive (fun c n => match c, n with
+      | .handler 1, 0 => ⟨[.reg .timer 3], .cont⟩
+      | _, _ => ⟨[], .cont⟩) 0 .timer 10 0 s = [.h 1, .h 1, .h 2, .own] := by
+  decide
+
 end C15
